@@ -115,11 +115,17 @@ def run(tier, seed, replay):
                 s2 = seq[:i] + [KIND[seq[i][:2]] + seq[i][2:]] + seq[i + 1:]
                 app_lines.append("proto_app " + ",".join(s2))
                 app_meta.append(("event-trigger-kind", b, s2))
+    # a registration made AFTER the hash was computed (a later plugin's `finish`): it must be refused (the app panics at build
+    # time) - if it is accepted, the effective protocol differs from the one the hash vouches for
+    late_lines = ["proto_app " + ",".join(seq + ["late"]) for (k, bi, seq) in app_meta if k == "base"][:12]
+    late_out = run_lines(harness_bin("kernels"), late_lines) if late_lines else []
+    late_fail = [dict(request=l, implementation=o, why="a replication rule registered after the protocol hash was computed is accepted: the hash no longer covers the protocol the app "
+                      "replicates with, so a client without that rule is authorized") for l, o in zip(late_lines, late_out) if "late-accepted" in o]
     app_out = run_lines(harness_bin("kernels"), app_lines, shards=8) if app_lines else []
     app_model_lines = ["proto " + (o.split(" ", 1)[1] if " " in o else "-") for o in app_out]
     app_model = run_lines(os.path.join(OCAML, "driver"), app_model_lines, shards=8) if app_lines else []
     impl, model = kernel_pair(lines, shards=8)
-    diverged, oracle_fail, nontriv = [], [], set()
+    diverged, oracle_fail, nontriv = [], list(late_fail), set()
     app_base = {}
     for l, o, m, (k, bi, seq) in zip(app_lines, app_out, app_model, app_meta):
         h = o.split(" ", 1)[0]
